@@ -123,6 +123,12 @@ let run_case (line:string) : string =
      | COk a' -> String.concat " " ["ok"; proj_str a'.a_hdr; ents_str a'.a_entries; hex_of_bytes a'.a_data; hex_of_bytes a'.a_meta]
      | CAlreadyClustered -> "err"
      | CCrash -> "crash")
+  | "verify" ->
+    let _expect = tok ts in let fsize = z_of_string (tok ts) in
+    let _ = ti ts in let _ = ti ts in let _ = ti ts in let _ = ti ts in
+    let vs = List.init 25 (fun _ -> z_of_string (tok ts)) in
+    let es = tents ts in
+    (match verify (list_header vs) (Some es) fsize with None -> "ok" | Some _ -> "err")
   | op -> "unknown-op " ^ op
 
 let () =
